@@ -20,8 +20,8 @@ RULE = ("two real dilated wormholes with tiny randomised L2 send buffers (one wr
         "Outbound/Inbound state. Non-trivial = at least one transport-initiated pause reached a "
         "registered producer; distinct = decision traces.")
 ASSUMPTIONS = ["Noise stand-in", "state probes read Manager._connection, transport.producerPaused/reading between steps"]
-FLOORS = {"quick": {"probes": 60000, "producer_pauses": 1500, "producer_resumes": 1500, "inbound_pause_calls": 300, "cuts": 60},
-          "thorough": {"probes": 2000000, "producer_pauses": 50000, "producer_resumes": 50000, "inbound_pause_calls": 10000, "cuts": 2000}}
+FLOORS = {"quick": {"probes": 60000, "producer_pauses": 1500, "producer_resumes": 1500, "inbound_pause_calls": 300, "cuts": 60, "producers_that_are_false": 100, "producers_left_inside_pause": 50, "pauses_after_connectionLost": 80},
+          "thorough": {"probes": 2000000, "producer_pauses": 50000, "producer_resumes": 50000, "inbound_pause_calls": 10000, "cuts": 2000, "producers_that_are_false": 3000, "producers_left_inside_pause": 1500, "pauses_after_connectionLost": 2500}}
 
 
 @implementer(interfaces.IPushProducer)
@@ -45,6 +45,11 @@ class PushP:
 
     def pauseProducing(self):
         self._sig("pause")
+        if getattr(self, "leaves_on_pause", False) and self.registered:
+            # a producer that takes the pause as its cue to finish (it has nothing more to say anyway)
+            self.leaves_on_pause = False
+            self.drv.left_on_pause += 1
+            self.drv.unregister(self, force=True)
 
     def resumeProducing(self):
         self._sig("resume")
@@ -53,6 +58,13 @@ class PushP:
 
     def stopProducing(self):
         self._sig("stop")
+
+
+class QueuePushP(PushP):
+    """a producer that is also a container (a queue of pending items): it is empty, hence false, most of the time"""
+
+    def __len__(self):
+        return 0
 
 
 @implementer(interfaces.IPullProducer)
@@ -136,13 +148,17 @@ class Driver:
         self.api_errors = []
         self.inpaused = {}           # proto -> True while the app has an outstanding pause
         self.budget = {"open": {"A": rng.randint(1, 3), "B": rng.randint(1, 3)}, "reg": rng.randint(2, 8),
-                       "inbound": rng.randint(0, 12), "ticks": 120, "close_with": rng.choice([0, 0, 1, 2, 5])}
+                       "inbound": rng.randint(0, 12), "ticks": 120, "close_with": rng.choice([0, 0, 1, 2, 5]),
+                       "late_pause": rng.choice([0, 0, 1, 2])}
+        self.late_pauses = 0
         self.inbound_calls = 0
         self.stop = False
         self.data_while_paused = []
         self.pause_conn = {}        # proto -> id of the L2 connection in use when the pause was asked for
         self.pause_prob = 0.08
         self.send_and_close = 0
+        self.left_on_pause = 0
+        self.falsy_producers = 0
 
     def side_of(self, proto):
         return proto.name[0]
@@ -214,7 +230,9 @@ class Driver:
                     self.budget["reg"] -= 1
                     p = rng.choice(free)
                     if rng.random() < 0.65:
-                        prod = PushP(self, p, ignores=rng.random() < 0.15)
+                        prod = (QueuePushP if rng.random() < 0.2 else PushP)(self, p, ignores=rng.random() < 0.15)
+                        prod.leaves_on_pause = rng.random() < 0.12
+                        self.falsy_producers += int(isinstance(prod, QueuePushP))
                         streaming = True
                     else:
                         prod = PullP(self, p, rng.randint(1, 6))
@@ -305,6 +323,19 @@ class Driver:
                     except Exception as e:
                         self.api_errors.append(("transport.%sProducing" % what, p.name, type(e).__name__, repr(e)[:160]))
                 acts.append((("app", side, "inbound"), inb))
+            # a pause request that arrives for a subchannel which has already gone (a downstream consumer that is still
+            # wired to the dead transport as its producer reports back-pressure late)
+            dead = [p for p in self.protos(side) if "lost" in [e[0] for e in p.events]]
+            if dead and self.budget["late_pause"] > 0:
+                def latep(dead=dead):
+                    self.budget["late_pause"] -= 1
+                    self.late_pauses += 1
+                    p = rng.choice(dead)
+                    try:
+                        p.transport.pauseProducing()
+                    except Exception as e:
+                        self.api_errors.append(("transport.pauseProducing(after connectionLost)", p.name, type(e).__name__, repr(e)[:160]))
+                acts.append((("app", side, "late-pause"), latep))
         return acts
 
     drain_actions = actions
@@ -476,7 +507,7 @@ def run_case(spec):
             "counters": {"probes": stats["probes"], "producer_pauses": pauses, "producer_resumes": resumes,
                          "producers": len(drv.producers), "pull_producers": sum(q.kind == "pull" for q in drv.producers), "pull_producers_finished": pull_finished,
                          "inbound_pause_calls": drv.inbound_calls, "pauses_inside_dataReceived": drv.pauses_in_data, "cuts": stats["cuts"], "notrans_seen": len(MON.notrans),
-                         "log_errors_seen": len(MON.errors)},
+                         "log_errors_seen": len(MON.errors), "producers_that_are_false": drv.falsy_producers, "producers_left_inside_pause": drv.left_on_pause, "pauses_after_connectionLost": drv.late_pauses},
             "sets": {"logged_errors": sorted({e[0] + ":" + e[3] for e in MON.errors})},
             "sample": {"spec": spec, "buffer_size": r.default_buffer_size,
                        "producers": [(q.proto.name, q.kind, [w for (_, w) in q.signals][:10]) for q in drv.producers][:5],
